@@ -222,6 +222,17 @@ def main(argv=None):
             seed = c['seed']
             ns = rec.get('nshards') or NSHARDS[tier]
             results, problems = run_shards(prop, tier, seed, ns, workdir, only=(c['shard'], c['case']))
+            if not problems and not merge(results)['n_violations'] and c['case']:
+                # the case alone is clean in a fresh process: the violation may need what earlier cases of the same
+                # shard left behind in the library (module-level memo, mutable default, shared instance), so the
+                # shard's cases 0..case are executed again in one process, as they were in the reporting run
+                print('replay: case %s alone reproduces nothing; replaying cases 0..%s of shard %s in one process' % (
+                    c['case'], c['case'], c['shard']))
+                os.environ['VERIF_REPLAY_PREFIX'] = '1'
+                try:
+                    results, problems = run_shards(prop, tier, seed, ns, workdir, only=(c['shard'], c['case']))
+                finally:
+                    del os.environ['VERIF_REPLAY_PREFIX']
         else:
             ns = nshards or getattr(mod, 'NSHARDS', NSHARDS)[tier]
             results, problems = run_shards(prop, tier, seed, ns, workdir)
